@@ -646,9 +646,27 @@ def binding(ctx):
                                         s2 = strip(caps[s2[1]])
                 if s2[0] == 'arg' and holder:
                     pi = s2[1]
-                    cs = [(h, c2) for h in P.fns.values() for c2 in h.calls(lambda r: r['path'] == holder.id)]
-                    ok = bool(cs) and all(find_calls(h.expr_of_operand(c2['term']['args'][pi - 1]), 'Module::scope') for h, c2 in cs)
-                    how = 'parameter %d of %s; its %d callers all pass Module::scope()' % (pi, short(holder.id), len(cs))
+
+                    def passed_scope(hold, pidx, depth=0):
+                        """every caller of `hold` passes Module::scope() for parameter pidx, directly or as its own parameter
+                        for which the same holds"""
+                        cs_ = [(h, c2) for h in P.fns.values() if not h.raw.get('derived') for c2 in h.calls(lambda r: r['path'] == hold.id)]
+                        if not cs_ or depth > 3:
+                            return False, 0
+                        for h, c2 in cs_:
+                            a_ = h.expr_of_operand(c2['term']['args'][pidx - 1])
+                            if find_calls(a_, 'Module::scope'):
+                                continue
+                            a2 = strip(a_)
+                            while a2[0] == 'call' and a2[2] and re.search(r'(::deref|::as_ref|::as_slice|::borrow)$', a2[1]):
+                                a2 = strip(a2[2][0])
+                            hb = P.fns.get(re.sub(r'(::\{closure#\d+\})+$', '', h.id))
+                            if a2[0] == 'arg' and h.kind != 'Closure' and hb is not None and passed_scope(hb, a2[1], depth + 1)[0]:
+                                continue
+                            return False, len(cs_)
+                        return True, len(cs_)
+                    ok, ncs = passed_scope(holder, pi)
+                    how = 'parameter %d of %s; its %d callers all pass Module::scope() (possibly through their own parameter)' % (pi, short(holder.id), ncs)
             ctx.ob(['C11', 'C19'], 'R-EXPR', 'C11-D1|scope-of|%s' % cid(g.id), ok, 'the scope handed to the resolver is the referring module\'s own scope(): %s' % how, loc(c['span']))
     # the module whose scope is used is the module that owns the item: get_module_for_path(resolvee_path)
     gm = [f for f in P.fns.values() if f.id.endswith('SemanticState::get_module_for_path')]
@@ -1078,15 +1096,26 @@ def registration(ctx):
         ok = False
         if len(Ls) == 1:
             L, src = Ls[0]
-            calls = [c for c in am.calls(lambda r: r['block'] in L[1] and r['path'] == ai.id)]
+            # the registration may be done by a private method the loop body was moved into: it must call add_item on every path
+            # to its Ok and propagate the error
+            fam = method_family(P, am, exclude=('SemanticState::add_item',))
+            regs = {ai.id}
+            for h in fam[1:]:
+                hc = [c for c in h.calls(lambda r: r['path'] == ai.id)]
+                hok = [x for x in h.exits() if x['kind'] == 'ok']
+                if len(hc) == 1 and hok and all(unreachable_without(h, x['block'], {hc[0]['block']}) for x in hok) and \
+                        any(g.kind == 'reject' and g.pred[0] == 'fails' and find_calls(g.pred, 'add_item') for g in guards_of(h)):
+                    regs.add(h.id)
+            calls = [c for c in am.calls(lambda r: r['block'] in L[1] and r['path'] in regs)]
             ok = len(calls) == 1 and not cycle_without_except_err(am, L, calls[0]['block']) and any(isinstance(x, tuple) and x[0] == 'field' and x[2] == fld for x in walk(src))
-            prop = any(g.kind == 'reject' and g.pred[0] == 'fails' and find_calls(g.pred, 'add_item') and g.block in L[1] for g in guards_of(am))
+            prop = any(g.kind == 'reject' and g.pred[0] == 'fails' and any(find_calls(g.pred, r_.split('::')[-1]) for r_ in regs) and g.block in L[1] for g in guards_of(am))
             ok = ok and prop
         ctx.ob(['C14', 'C10'], 'R-ITER', 'AM|all-%s-registered' % fld, ok, 'add_module registers every entry of module.%s (unadapted loop, add_item in every iteration, error propagated)' % fld, loc(am.span))
     # paths: module path joined with the item's name
     oks = False
-    for c in am.calls(lambda r: r['path'] == ai.id):
-        e = am.expr_of_operand(c['term']['args'][1])
+    for h_ in method_family(P, am, exclude=('SemanticState::add_item',)):
+      for c in h_.calls(lambda r: r['path'] == ai.id):
+        e = h_.expr_of_operand(c['term']['args'][1])
         if e[0] == 'agg':
             p = dict(e[2]).get('path')
             if p is not None and find_calls(p, 'ItemPath::join'):
